@@ -153,7 +153,8 @@ func blockErrorOf(err error, exec *execution) (found *blockError) {
 			found = nil
 		}
 	}()
-	for err != nil {
+	// (an error that unwraps to itself is such a value too: the walk is bounded)
+	for steps := 0; err != nil && steps < 1000; steps++ {
 		switch e := err.(type) {
 		case *blockError:
 			if e.exec == exec {
